@@ -1,6 +1,7 @@
+\* C21 quick (the check generates the same text: checks/C21.py cfg_text)
 SPECIFICATION Spec
 CONSTANTS
-  SeriesIdx = {1, 2, 3, 4, 6}
+  SeriesIdx = {1, 2, 3, 6}
   Patterns = {{}, {1, 3}, {4, 6}, {2, 3, 4, 5}}
   RangeIdx = {1, 2, 3, 4}
   PredIdx = {1, 2, 3, 4, 5, 6, 7, 8, 9, 10, 11, 12}
